@@ -1,7 +1,7 @@
 """C13  An interrupted search leaves nothing behind that can mislead a later one  (DESIGN 3, C13)."""
 from . import engine, mir
 from . import common as C
-from .mir import expr_str, walk, strip_generics
+from .mir import expr_str, walk, strip_generics, op_place
 
 PROP = "C13"
 
@@ -77,6 +77,79 @@ def rule_guard(ctx):
                                detail={"guard_blocks_lines": sorted(b.blocks[g].term["line"] for g in guards), "call_lines": sorted(b.blocks[x].term["line"] for x, _ in sites)})
     ctx.floor("cache-writes", n_w, 3)
     ctx.floor("write-after-search-call pairs", n_pairs, 2 * (2 + 2 + 2))  # three writes, each after at least two search calls, two guards
+
+
+def rule_child_score(ctx):
+    """The value a child search hands back may be the dummy of a cut search: it is not copied anywhere (into alpha, the best
+    score, a field) before both abort tests have been repeated.  (Cache writes are covered by `guard`.)"""
+    ix = ctx.ix
+    abortable = C.abortable_functions(ix)
+    n = 0
+    for b in ix.fn_bodies():
+        if not C.tt_stores(ix, b) and b.key != C.ALPHA_BETA_START:
+            continue
+        rcalls = C.calls_to(ix, b, abortable)
+        if not rcalls:
+            continue
+        sym = ctx.sym(b)
+        # locals that carry a child's result: the call's destination, and what is computed from it alone (`-child`)
+        carriers = {rt["dest"]["l"] for (_rb, rt, _rk) in rcalls if mir.is_local(rt["dest"])}
+        for _round in range(4):
+            for l in range(b.arg_count + 1, len(b.locals)):
+                if l in carriers:
+                    continue
+                ds = b.defs().get(l, [])
+                if not ds:
+                    continue
+                ok = True
+                for (_db, _di, rv) in ds:
+                    if rv.get("k") == "call" and (rv["t"].get("callee") or "").endswith(("std::ops::Neg>::neg", "::saturating_neg", "::wrapping_neg", "::checked_neg")) and len(rv["t"]["args"]) == 1 and (op_place(rv["t"]["args"][0]) or {}).get("l") in carriers:
+                        continue        # `-child` (a call in the overflow-checked build)
+                    if rv.get("k") not in ("use", "unop", "cast"):
+                        ok = False
+                        break
+                    ops = [op_place(o) for o in mir.rv_operands(rv)]
+                    ops = [o for o in ops if o is not None]
+                    if not ops or not all(o["l"] in carriers and not o["p"] or (o["l"] in carriers and o["p"] and o["p"][-1] == {"f": 0} ) or (o["l"] in carriers) for o in ops):
+                        ok = False
+                        break
+                if ok:
+                    carriers.add(l)
+        names = {b.local_name(l) for l in carriers}
+
+        def mentions(e):
+            return any(isinstance(x, tuple) and x[0] == "var" and x[1] in names for x in mir.walk(e)) or any(
+                isinstance(x, tuple) and x[0] == "call" and strip_generics(x[1]) in abortable for x in mir.walk(e))
+        uses = set()
+        for blk in b.blocks:
+            if blk.cleanup or blk.idx not in b.live_blocks():
+                continue
+            # (a comparison that only decides whether another child is searched - the PVS re-search - is not a use: that
+            # child is cut as well and the re-test behind it discards everything; the uses are the copies)
+            for st in blk.stmts:
+                if mir.is_local(st["lhs"]) and st["lhs"]["l"] in carriers:
+                    continue
+                if st["rv"].get("k") in ("use",) and any((op_place(o) or {}).get("l") in carriers for o in mir.rv_operands(st["rv"])):
+                    uses.add(blk.idx)
+        if not uses:
+            continue
+        n += 1
+        ctx.functions.add(b.key)
+        for kind in ("running", "limits"):
+            guards = set(C.guard_blocks(ix, b, kind, uses))
+            bad = []
+            for (rb, rt, rk) in rcalls:
+                if rt["target"] is None:
+                    continue
+                reach = b.reachable_from(rt["target"], removed=guards, include_start=True)
+                hit = sorted(u for u in uses if u in reach and rt["target"] not in guards)
+                if hit:
+                    bad.append((rb, hit[0]))
+            ctx.check(not bad, "%s:child-score-used-only-after-%s-test" % (b.key, kind),
+                      "every decision taken with a child's result in %s (%d site(s)) lies behind the %s abort test" % (C.short(b.key), len(uses), kind), b.where(sorted(uses)[0]),
+                      bad_what="in %s the result of the child search called at %s is used at %s before the %s abort test is repeated: the dummy value of a cut search can become alpha, the best move or a cut-off"
+                      % (C.short(b.key), b.where(bad[0][0]) if bad else "?", b.where(bad[0][1]) if bad else "?", "is_running()" if kind == "running" else "limits_exceeded()"))
+    ctx.floor("functions deciding with a child's score", n, 2)
 
 
 def rule_final(ctx):
@@ -420,7 +493,7 @@ def rule_writers(ctx):
     ctx.floor("cache writers", len(writers), 3)
 
 
-RULES = [("guard", rule_guard), ("final", rule_final), ("dummy", rule_dummy), ("sticky", rule_sticky), ("writers", rule_writers)]
+RULES = [("guard", rule_guard), ("child-score", rule_child_score), ("final", rule_final), ("dummy", rule_dummy), ("sticky", rule_sticky), ("writers", rule_writers)]
 
 
 def run(tier):
